@@ -100,8 +100,20 @@ func jobs(tier string) []driver.Job {
 					s := scen{d: d, start: start, prepop: prep, conc: conc, api: api}
 					heavy := strings.HasPrefix(api, "ext") && len(d.Nodes) > 6
 					if th {
-						out = append(out, mkJob(s, explore.Bounds{Fault: 1, Dev: 2}, 16)...)
-						out = append(out, mkJob(s, explore.Bounds{Fault: 2, Dev: 1}, 8)...)
+						// one more schedule deviation (and a second fault) for the scenarios in which goroutines
+						// really meet: Concurrency 2, empty destination; the others as in the quick tier plus F2.D0
+						main := conc == 2 && len(prep) == 0
+						switch {
+						case main && len(d.Nodes) <= 6:
+							out = append(out, mkJob(s, explore.Bounds{Fault: 1, Dev: 2}, 8)...)
+							out = append(out, mkJob(s, explore.Bounds{Fault: 2, Dev: 1}, 8)...)
+						case main:
+							out = append(out, mkJob(s, explore.Bounds{Fault: 1, Dev: 2}, 16)...)
+							out = append(out, mkJob(s, explore.Bounds{Fault: 2, Dev: 0}, 2)...)
+						default:
+							out = append(out, mkJob(s, explore.Bounds{Fault: 1, Dev: 1}, 2)...)
+							out = append(out, mkJob(s, explore.Bounds{Fault: 2, Dev: 0}, 1)...)
+						}
 					} else {
 						nsh := 1
 						if heavy {
